@@ -97,9 +97,17 @@ func (path *Path) GetFileList(currentDirectory string) []string {
 
 		var results []string
 		for _, e := range entries {
-			if !e.IsDir() && pathMatches(e.Name(), path.entries[0].value) {
-				results = append(results, currentDirectory+"/"+e.Name())
+			if e.IsDir() || !pathMatches(e.Name(), path.entries[0].value) {
+				continue
 			}
+			if e.Type()&os.ModeSymlink != 0 {
+				// a link is listed only when it leads to something that can be read as a file
+				info, err := os.Stat(currentDirectory + "/" + e.Name())
+				if err != nil || info.IsDir() {
+					continue
+				}
+			}
+			results = append(results, currentDirectory+"/"+e.Name())
 		}
 		return results
 	}
